@@ -791,11 +791,11 @@ class Container:
             volume_to_transfer = Unit.convert_to_storage(quantity_to_transfer, 'L')
             volume_to_transfer = round(volume_to_transfer, config.internal_precision)
 
-            if volume_to_transfer > source_container.volume:
+            ratio = fraction_of(volume_to_transfer, source_container.volume)
+            if round(ratio, config.internal_precision) > 1:
                 raise ValueError(f"Not enough mixture left in source container ({source_container.name}). " +
                                  f"Only {Unit.convert_from_storage(source_container.volume, 'mL')} mL available, " +
                                  f"{Unit.convert_from_storage(volume_to_transfer, 'mL')} mL needed.")
-            ratio = fraction_of(volume_to_transfer, source_container.volume)
 
         elif unit == 'g':
             mass_to_transfer = round(quantity_to_transfer, config.internal_precision)
